@@ -1,6 +1,77 @@
-//! Kani harnesses for nomt/src/bitbox/mod.rs (compiled into the real crate only under cfg(kani)).
+//! K12 (bucket allocation): ProbeSequence::next and allocate_bucket of nomt/src/bitbox/mod.rs.
 #![allow(unused_imports, dead_code)]
 use super::*;
+use crate::bitbox::meta_map::verif_kani::{any_meta_map, byte, N};
+
+fn stub_hash_page_id(_page_id: &PageId, _seed: &[u8; 16]) -> u64 {
+    kani::any()
+}
+
+/// allocate_bucket on a map of `len` buckets (len symbolic in 1..=8, metadata symbolic), for every
+/// execution that finishes within 6 probe rounds (bounded: longer probe chains are cut off):
+///  * the returned bucket is in range and WAS empty or a tombstone (a full bucket is never reused:
+///    C16 "every stored page reachable exactly once", C17 "new data only to free buckets");
+///  * afterwards it is marked full with this page's hash tag;
+///  * no other metadata byte changed; None changes nothing.
+#[kani::proof]
+#[kani::unwind(7)]
+#[kani::stub(hash_page_id, stub_hash_page_id)]
+fn allocate_bucket_takes_only_free_buckets() {
+    let len: usize = kani::any();
+    kani::assume(len >= 1 && len <= N);
+    let mut m = any_meta_map(len);
+    let mut before = [0u8; N];
+    let mut i = 0;
+    while i < N {
+        before[i] = byte(&m, i);
+        i += 1;
+    }
+    let seed: [u8; 16] = kani::any();
+    let r = allocate_bucket(&nomt_core::page_id::ROOT_PAGE_ID, &mut m, &seed);
+    let other: usize = kani::any();
+    kani::assume(other < N);
+    match r {
+        Some(BucketIndex(b)) => {
+            let b = b as usize;
+            assert!(b < len);
+            assert!(before[b] == 0 || before[b] == 0x7f);
+            assert!(byte(&m, b) & 0x80 != 0);
+            if other != b {
+                assert!(byte(&m, other) == before[other]);
+            }
+        }
+        None => {
+            assert!(byte(&m, other) == before[other]);
+        }
+    }
+    kani::cover!(r.is_some(), "allocation reachable");
+}
+
+/// ProbeSequence::next: the bucket returned is in range and its class matches the variant.
+#[kani::proof]
+#[kani::unwind(7)]
+fn probe_next_classifies() {
+    let len: usize = kani::any();
+    kani::assume(len >= 1 && len <= N);
+    let m = any_meta_map(len);
+    let hash: u64 = kani::any();
+    let mut p = ProbeSequence { hash, bucket: hash % len as u64, step: 0 };
+    let r = p.next(&m);
+    match r {
+        ProbeResult::Empty(b) => {
+            assert!((b as usize) < len && byte(&m, b as usize) == 0);
+        }
+        ProbeResult::Tombstone(b) => {
+            assert!((b as usize) < len && byte(&m, b as usize) == 0x7f);
+        }
+        ProbeResult::PossibleHit(b) => {
+            assert!((b as usize) < len);
+            assert!(byte(&m, b as usize) == ((hash >> 57) as u8 | 0x80));
+        }
+    }
+    assert!(p.bucket() < len as u64);
+    kani::cover!(matches!(r, ProbeResult::PossibleHit(_)), "possible hit reachable");
+}
 
 #[cfg(test)]
 include!("/verif/.build/playback/bitbox_mod.inc");
